@@ -9,7 +9,7 @@
                    get_attestations_over, get_authority (first row with that signature), get_credentials_for
     tokentree/tree.py  gather_token, _append_chain_reaction_token, unserialize_public (the per-subject in-memory tree)
 
-  Time is an input (whole seconds).  Exceptions that escape a handler (struct.error on truncated input, json errors in
+  Time is an input (milliseconds; the window constant of the age guard is in seconds).  Exceptions that escape a handler (struct.error on truncated input, json errors in
   should_sign, key_from_public_bin on garbage) are modelled as "abort": the effects so far stay, nothing more happens.
 -/
 import Ipv8.C17.Gen
@@ -94,6 +94,8 @@ structure Node where
   trees : List (Key × Tree) := []
   mdRows : List MdRow := []
   attRows : List AttRow := []
+  /-- the Tokens table: (subject key, token), PRIMARY KEY (public_key, previous_token_hash, content_hash) -/
+  tokRows : List (Key × Token) := []
   /-- `attested_metadata`: hashes of the metadata this object has attested to -/
   attested : List Hash := []
   /-- `token_chain` (token hashes) -/
@@ -189,7 +191,21 @@ def attestedInDb (rows : List AttRow) (me : Key) (mptr : Hash) : Bool :=
 
 def genesisOf (s : Node) (k : Key) : Hash := (lookup k s.genesis).getD 0
 
-def treeOf (s : Node) (k : Key) : Tree := (lookup k s.trees).getD {}
+/-- `PseudonymManager.__init__`: a pseudonym that is not in the manager's cache is loaded from the Tokens table
+    (elements only, unverified, no waiting tokens) -/
+def loadTree (s : Node) (k : Key) : Tree := { elements := (s.tokRows.filter (fun r => r.1 == k)).map (·.2) }
+
+/-- `IdentityManager.get_pseudonym(k).tree` -/
+def treeOf (s : Node) (k : Key) : Tree :=
+  match lookup k s.trees with
+  | some t => t
+  | none => loadTree s k
+
+/-- `store_new_tokens`: INSERT OR IGNORE every token that entered the tree during this call -/
+def persistToks (rows : List (Key × Token)) (p : Key) (new : List Token) : List (Key × Token) :=
+  new.foldl (fun rows t =>
+    if rows.any (fun r => r.1 == p && r.2.prev == t.prev && r.2.content == t.content) then rows
+    else rows ++ [(p, t)]) rows
 
 /-- add_known_hash -/
 def addKnown (now : Nat) (s : Node) (rawLen : Nat) (raw padded : Hash) (name : NameV) (key : Key)
@@ -209,10 +225,10 @@ def guardOk (now : Nat) (s : Node) (subject : Key) (tree : Tree) (m : Metadata) 
     match (tree.find? m.tokenPtr).bind (fun tk => lookup tk.content s.known) with
     | none => false
     | some r => r.key == subject
-  | .fresh window =>
+  | .fresh window strict =>
     match (tree.find? m.tokenPtr).bind (fun tk => lookup tk.content s.known) with
     | none => false
-    | some r => !(now > r.t + window)
+    | some r => if strict then decide (now < r.t + window * 1000) else decide (now ≤ r.t + window * 1000)
   | .nameMatches =>
     match (tree.find? m.tokenPtr).bind (fun tk => lookup tk.content s.known) with
     | none => false
@@ -238,6 +254,11 @@ def subTokens (s : Node) (p : Key) (msg : Msg) : Node × Bool :=
   let r := gatherAll p (genesisOf s p) (treeOf s p) msg.tokens
   ({ s with trees := insertDict p r.1 s.trees }, r.2)
 
+/-- substantiate, part 1b: `store_new_tokens(known_tokens)` — `s` is the state before the call, `s1` after part 1 -/
+def subPersist (s s1 : Node) (p : Key) : Node :=
+  let new := (treeOf s1 p).elements.filter (fun x => !((treeOf s p).elements.any (fun y => y.id == x.id)))
+  { s1 with tokRows := persistToks s1.tokRows p new }
+
 /-- substantiate, part 2: `add_metadata` for every metadata blob -/
 def subMds (s : Node) (p : Key) (msg : Msg) : Node :=
   { s with mdRows := msg.mds.foldl (fun rows m => if verifies m.vk p then insertMd rows ⟨p, m⟩ else rows) s.mdRows }
@@ -252,6 +273,8 @@ def substantiate (s : Node) (p : Key) (msg : Msg) : Node × Bool × Bool :=
   let s1 := (subTokens s p msg).1
   let ok := (subTokens s p msg).2
   if msg.tokAbort then (s1, ok, true) else
+  -- `unserialize_public` returned: the tokens that entered the tree in this call are stored
+  let s1 := subPersist s s1 p
   let s2 := subMds s1 p msg
   if msg.mdAbort then (s2, ok, true) else
   (subAtts s2 p msg, ok && msg.atts.all (fun a => verifies a.2.vk a.1), msg.attAbort)
@@ -335,10 +358,13 @@ def step (now : Nat) (s : Node) : Event → Node × List Out
 def init (me : Key) (genesis : List (Key × Hash)) : Node := { me := me, genesis := genesis }
 
 /-- A new IdentityCommunity object (with a new IdentityManager) over the database an earlier object left behind:
-    the tables survive, the consent table, the per-subject trees, the record of own attestations and the permissions
-    do not; `chain'` is the token chain `__init__` reloads (longest root path of the stored own tree). -/
-def restartOf (s : Node) (chain' : List Hash) : Node :=
-  { me := s.me, genesis := s.genesis, mdRows := s.mdRows, attRows := s.attRows, chain := chain' }
+    the tables survive, the consent table, the record of own attestations and the permissions do not; the cached
+    per-subject trees survive iff the new object is given the OLD IdentityManager (`keepTrees`); otherwise a tree is
+    reloaded from the Tokens table when first needed (`treeOf`/`loadTree`);
+    `chain'` is the token chain `__init__` reloads (longest root path of the stored own tree). -/
+def restartOf (s : Node) (chain' : List Hash) (keepTrees : Bool := false) : Node :=
+  { me := s.me, genesis := s.genesis, mdRows := s.mdRows, attRows := s.attRows, tokRows := s.tokRows, chain := chain',
+    trees := if keepTrees then s.trees else [] }
 
 /-- a history: timestamped events, oldest first; outputs carry the time of the event that produced them -/
 def run (s : Node) : List (Nat × Event) → Node × List (Nat × Out)
@@ -361,5 +387,19 @@ def attestsOf (outs : List (Nat × Out)) : List Hash := outs.filterMap (fun x =>
 inductive Rooted (gen : Hash) (els : List Token) : Token → Prop
   | base {x : Token} : x ∈ els → x.prev = gen → Rooted gen els x
   | step {x y : Token} : x ∈ els → y ∈ els → y.id = x.prev → Rooted gen els y → Rooted gen els x
+
+/-- the peer an event involves: the authenticated sender of a message, or the peer the user named -/
+def Event.peer : Event → Option Key
+  | .disclosure p _ _ => some p
+  | .attestMsg p _ => some p
+  | .requestMissing p _ => some p
+  | .advertise to _ _ _ => some to
+  | _ => none
+
+def Out.dest : Out → Key
+  | .attest to _ => to
+  | .requestMissing to _ => to
+  | .missingResponse to _ => to
+  | .disclose to _ _ _ => to
 
 end Ipv8.C17
